@@ -205,7 +205,7 @@ def modes(ctx, case):
     if part == 'child':
         shape = ctx.choose(['three', 'one', 'one-with-spaces', 'two-with-quotes'], 'argv_shape')
         if shape == 'three':
-            words = [symx_tok('prog')] + [ctx.choose([symx_tok('w%d' % k), '-r', '-g', '--supress', '-l'], 'word%d' % k) for k in range(2)]
+            words = [symx_tok('prog')] + [ctx.choose([symx_tok('w%d' % k), '-r', '-g', '--supress', '-l', '--', ''], 'word%d' % k) for k in range(2)]
         elif shape == 'one':
             words = [symx_tok('prog')]
         elif shape == 'one-with-spaces':
@@ -460,7 +460,7 @@ def obligations(tier):
     cases += [(1, 0, 'child'), (2, 4, 'child'), (0, 0, 'child')]
     cases.sort(key=lambda c: -c[0])
     bounds = ('stream part: streams of <= %d lines from a pool of %d, last line with/without newline, each line whole or split mid-line, 3 schedules, child closing its stderr at exit or long before exiting, --supress on/off; '
-              'child part: 2 environments x library directory set or not x 2 extra argument words from {opaque, -r, -g, --supress, -l}; exit status symbolic in [0,256) throughout' % (nmax, len(POOL)))
+              'child part: 2 environments x library directory set or not x 2 extra argument words from {opaque, -r, -g, --supress, -l, --, the empty word}; exit status symbolic in [0,256) throughout' % (nmax, len(POOL)))
     return [Ob('three-modes', 'symx', 'file = pipe = run; child started verbatim with the right environment and stdio; output before prompt; exit status', FUNCS, bounds, modes, cases=cases,
                stubs=['subprocess / threading / os.pipe / os.fdopen / os.close / os.environ replaced in runner.py', 'open() and sys.stdin replaced in main.py', 'protocol.load_all stubbed'],
                outside='real kernel/C-library behaviour (byte chunking, TextIOWrapper, thread scheduling, join timeout, real exit statuses)', budget_s=1200),
